@@ -22,19 +22,14 @@ hex, "-" = empty string; integers are decimal):
   put <body> <tok> <tok2> <signing 0|1> <ttlNs> <key> <nowNs>
         -> 200 <signed 0|1> <status of GET with tok> <status of GET with tok2>
 
-The MAC is the executable HMAC-SHA1 of Base/SHA1.lean.
+The MAC is the executable HMAC-SHA1 of Base/SHA1.lean (`hmacSha1`, Model/C07_Hmac.lean).
 -/
 import ArvVerif.Base.SHA1
 import ArvVerif.Base.MD5
 import ArvVerif.Base.Loop
 import ArvVerif.Model.C07
+import ArvVerif.Model.C07_Hmac
 open ArvVerif ArvVerif.C07
-
-def toBytes (s : Str) : ByteArray := ByteArray.mk (s.map (fun c => UInt8.ofNat c.toNat)).toArray
-
-def ofBytes (b : ByteArray) : Str := b.toList.map (fun x => Char.ofNat x.toNat)
-
-def hmacSha1 (key msg : Str) : List UInt8 := (SHA1.hmac (toBytes key) (toBytes msg)).toList
 
 def decHex (s : String) : Option Str :=
   if s == "-" then some [] else (bytesOfHex? s).map ofBytes
